@@ -271,8 +271,19 @@ def deep_snapshot(K):
     }
 
 
+PURITY_KEYS = ('states', 'next', 'labels', 'S0')
+
+
 def snapshot_diff(a, b):
-    return [k for k in a if a[k] != b.get(k)]
+    """Keys of the *observable* structure that differ (states, transitions,
+    label sets, initial states).  Object identities and private attributes
+    are recorded for diagnosis but are not part of the purity verdict: an
+    implementation may cache privately or replace a set by an equal one."""
+    return [k for k in PURITY_KEYS if a.get(k) != b.get(k)]
+
+
+def same_structure(a, b):
+    return a is not None and b is not None and not snapshot_diff(a, b)
 
 
 # --------------------------------------------------------------------------
